@@ -71,21 +71,35 @@ def rel(cap, req):
 
 
 # ------------------------------------------------------------------ rendering (abstract case -> driver lines)
+def reinvoke_cap(caps):
+    """the capacity at which the driver is asked to call again with exactly the size the function reported
+    (the answer is the same for every refused capacity of one input, so one per input is enough)"""
+    for want in (("need",), ("fail", "either")):
+        for e in caps:
+            if e["cls"] in want: return e["c"]
+    return -1
+
+
 def render(c):
     g = c["g"]; out = []
     if g in ("b64", "hex", "xmlent"):
         src = bytes(c["in"])
         for o in c["ops"]:
+            rcap = reinvoke_cap(o["caps"])
             for e in o["caps"]:
                 sh = c.get("shape") if g != "xmlent" else o["shape"]
                 aux = (" %d" % c["aux"]) if g == "hex" else ""
+                if e["c"] == rcap: aux += " R"
+                # (for the entity codecs capacity 0 is just one more capacity below the output size)
+                shape = rel(max(e["c"], 1), max(o["req"], 2)) if g == "xmlent" and e["c"] < o["req"] else \
+                    (rel(e["c"], o["req"]) if g == "xmlent" else "%s/%s" % (sh, rel(e["c"], o["req"])))
                 out.append(Case(o["op"], "%s %d%s" % (hexs(src), e["c"], aux), ("sized", e["cls"], e["n"], e["c"], o["req"]),
-                                "%s/%s" % (sh, rel(e["c"], o["req"])), len(src) > 0, (o["op"], src, e["c"], aux)))
+                                shape, len(src) > 0, (o["op"], src, e["c"], aux)))
     elif g == "num":
         txt = ("-" if c["neg"] else "") + "".join(str(d) for d in c["digits"])
-        o = c["ops"][0]
+        o = c["ops"][0]; rcap = reinvoke_cap(o["caps"])
         for e in o["caps"]:
-            out.append(Case("n2s", "%s %d %s" % (c["t"], e["c"], txt), ("sized", e["cls"], e["n"], e["c"], o["req"]),
+            out.append(Case("n2s", "%s %d %s%s" % (c["t"], e["c"], txt, " R" if e["c"] == rcap else ""), ("sized", e["cls"], e["n"], e["c"], o["req"]),
                             c["shape"], True, ("n2s", c["t"], txt, e["c"])))
         # the same text (and decorated variants) through the read-only parsers
         for t in (txt, "+" + txt, txt + " ", txt + "x9"):
@@ -104,7 +118,8 @@ def render(c):
             out.append(Case("bt", hexs(src), ("bt", c["consumed"]), c["shape"], True, ("bt", src)))
     elif g == "xml":
         src = bytes(c["in"])
-        for path in ("a", "r/a"):
+        paths = ("a", "r/a") if c["d"]["cut"] == 0 else (("r/a",) if c["d"]["wrap"] else ("a",))
+        for path in paths:
             out.append(Case("xml", "%s %s" % (hexs(src), path), ("xml",), c["shape"], True, ("xml", src, path)))
             out.append(Case("xmlns", "%s %s" % (hexs(src), path), ("xml",), c["shape"], True, ("xmlns", src, path)))
         if c["cnt"]:
@@ -143,13 +158,34 @@ def render(c):
 
 
 # ------------------------------------------------------------------ crash classification
-def crash_kind(raw):
-    """-> (kind, family, detail) from the worker's last words"""
+ARRAYS = {"tag_arr": "tag-arrays", "tag_arr_cnt": "tag-arrays", "ret_ns": "tag-arrays", "ret_ns_size": "tag-arrays",
+          "ns_size": "tag-arrays", "in": "input", "buf": "input", "chunk": "input", "what": "needle"}
+BUFPOS_OPS = ("xml", "xmlns", "xmlcnt", "mfs")   # several candidate blocks: the faulting block names the defect
+
+
+def position(off, size):
+    return "before-start" if off < 0 else ("at-end" if off == size else ("past-end" if off > size else "inside"))
+
+
+def crash_info(raw):
+    """-> (kind, family, detail, block position or None, re-invoked capacity or None) from the worker's last words"""
+    bufs = {int(m.group(2), 16): (m.group(1), int(m.group(3))) for m in re.finditer(r"@buf (\S+) (0x[0-9a-f]+) (\d+)", raw)}
+    m = re.search(r"@reinvoke (\d+)", raw)
+    reinv = int(m.group(1)) if m else None
+    pos = None
     m = re.search(r"AddressSanitizer: ([\w-]+)", raw)
     if m:
         acc = "-WRITE" if "WRITE of size" in raw else ("-READ" if "READ of size" in raw else "")
-        loc = re.search(r"located (\d+) bytes (to the right|to the left|inside) of (\d+)-byte region", raw)
-        return m.group(1) + acc, "oob", (loc.group(0) if loc else m.group(0))
+        loc = re.search(r"located (\d+) bytes (to the right|to the left|inside) of (\d+)-byte region \[(0x[0-9a-f]+),", raw)
+        if loc:
+            n, side, size, start = int(loc.group(1)), loc.group(2), int(loc.group(3)), int(loc.group(4), 16)
+            off = size + n if side == "to the right" else (-n if side == "to the left" else n)
+            name = bufs.get(start, ("heap-block", size))[0]
+            pos = "%s:%s" % (ARRAYS.get(name, name), position(off, size))
+        st = re.search(r"'(\w+)'[^\x1f]*<== Memory access at offset \d+ (underflows|overflows|partially (?:under|over)flows)", raw)
+        if st:
+            pos = "%s:%s" % (ARRAYS.get(st.group(1), st.group(1)), "before-start" if "under" in st.group(2) else "at-end")
+        return m.group(1) + acc, "oob", (loc.group(0) if loc else m.group(0)), pos, reinv
     m = re.search(r"runtime-error: ([^\x1f]*)", raw)
     if m:
         msg = m.group(1)
@@ -157,17 +193,18 @@ def crash_kind(raw):
         elif "null pointer" in msg: k = "ubsan-null-pointer"
         elif "misaligned" in msg: k = "ubsan-misaligned"
         else: k = "ubsan-" + "-".join(re.findall(r"[a-z]+", msg.lower())[:3])
-        return k, "oob", msg[:160]
+        return k, "oob", msg[:160], None, reinv
     m = re.search(r"FAULT sig=(\d+) acc=(\S) buf=(\S+) off=(-?\d+) size=(\d+)", raw)
     if m:
         sig = int(m.group(1))
-        if sig == 14: return "non-termination", "term", "watchdog expired"
+        if sig in (14, 26): return "non-termination", "term", "watchdog expired", None, reinv
         acc = {"W": "-WRITE", "R": "-READ"}.get(m.group(2), "")
-        off = int(m.group(4)); size = int(m.group(5))
-        where = "%s[%d] of %d" % (m.group(3), off, size)
-        return "guard-page" + acc, "oob", where
+        off = int(m.group(4)); size = int(m.group(5)); name = m.group(3).split("@")[0]
+        if m.group(3) != "wild" and m.group(3) != "none":
+            pos = "%s:%s" % (ARRAYS.get(name, name), position(off, size))
+        return "guard-page" + acc, "oob", "%s[%d] of %d" % (m.group(3), off, size), pos, reinv
     m = re.search(r"status=(\d+)", raw)
-    return "died-status-" + (m.group(1) if m else "?"), "oob", raw[:200]
+    return "died-status-" + (m.group(1) if m else "?"), "oob", raw[:200], None, reinv
 
 
 def kvs(line):
@@ -185,8 +222,16 @@ def compare(case, ans, place, fail):
     """fail(kind, family, detail) records one violation for this case"""
     fn = FN[case.op]
     if ans.split(" ", 2)[1] == "CRASH":
-        kind, fam, det = crash_kind(ans)
-        fail(kind, fam, det + " | " + ans[:1500].replace("\x1f", "\n"))
+        kind, fam, det, pos, reinv = crash_info(ans)
+        shape = None
+        if case.op in BUFPOS_OPS and pos is not None and fam == "oob":
+            shape = pos
+        elif reinv is not None and case.exp[0] == "sized" and "cap" in str(case.shape):
+            # the fault happened in the second call, made with exactly the capacity the function reported
+            pre = case.shape.rsplit("/", 1)[0] + "/" if "/" in case.shape else ""
+            shape = pre + rel(reinv, case.exp[4])
+        crash_txt = re.sub(r"@buf [^\x1f]*\x1f", "", ans)
+        fail(kind, fam, det + " | " + crash_txt[:1500].replace("\x1f", "\n"), shape)
         return None
     f = kvs(ans); e = case.exp; tag = e[0]
     rc = int(f.get("rc", "-999")); n = int(f.get("n", "-1"))
@@ -199,8 +244,6 @@ def compare(case, ans, place, fail):
                 fail("calc-size-wrong", "size", "ini_buf_calc_size=%s, spec %d" % (f["need"], req))
             if rc == 0 and n != req:
                 fail("wrong-size-reported", "size", "wrote %d, spec %d" % (n, req))
-            if rc == 0 and n > cap:
-                fail("reports-more-than-capacity", "size", "n=%d cap=%d" % (n, cap))
         if case.op == "n2s" and (f.get("rcu") != f.get("rc") or f.get("nu") != f.get("n")):
             fail("char-and-uint8-variants-disagree", "size", ans)
         ok = (rc == 0)
@@ -335,8 +378,8 @@ def run(ctx):
         for c, a in zip(cases, answers):
             if isinstance(a, dict):   # the parent driver itself died: cannot attribute -> infrastructure
                 raise common.Infra("driver parent process died: %s\n%s" % (a.get("crash"), a.get("raw", "")[-1500:]))
-            def fail(kind, fam, det, c=c, a=a):
-                key = "%s:%s:%s" % (FN[c.op], kind, c.shape_for(fam))
+            def fail(kind, fam, det, shape=None, c=c, a=a):
+                key = "%s:%s:%s" % (FN[c.op], kind, shape if shape is not None else c.shape_for(fam))
                 ent = fails.setdefault(key, [det, {"case": c.line(place), "answer": a[:600].replace("\x1f", "\n")}, 0, set()])
                 ent[2] += 1; ent[3].add(place)
             ok = compare(c, a, place, fail)
@@ -359,7 +402,7 @@ def run(ctx):
         if kind.startswith("guard-page"):
             acc = kind[len("guard-page"):]
             twin = [k for k in fails if k.split(":", 2)[0] == fn and k.split(":", 2)[2] == shape
-                    and k.split(":", 2)[1].endswith("buffer-overflow" + acc)]
+                    and (k.split(":", 2)[1].endswith("buffer-overflow" + acc) or k.split(":", 2)[1] == "ubsan-index-out-of-bounds")]
             if twin:
                 fails[twin[0]][2] += fails[key][2]; fails[twin[0]][3] |= fails[key][3]
                 fails[twin[0]][0] += "\n[also: guard-page fault %s]" % fails[key][0].split(" | ")[0]
